@@ -24,14 +24,24 @@ pub struct GenCfg {
     pub max_traits: usize,
     /// percent chance that an impl is a plain fact over ground types (more satisfiable goals)
     pub fact_bias: usize,
+    /// most traits are auto / coinductive
+    pub co_bias: bool,
 }
 
 impl GenCfg {
     pub fn horn() -> Self {
-        GenCfg { coinductive: false, auto: false, supers: true, extra_params: true, negative_impls: false, blanket: true, growth: true, struct_wcs: false, fields: false, enums: false, max_impls: 10, max_traits: 5, fact_bias: 35 }
+        GenCfg { coinductive: false, auto: false, supers: true, extra_params: true, negative_impls: false, blanket: true, growth: true, struct_wcs: false, fields: false, enums: false, max_impls: 10, max_traits: 5, fact_bias: 35, co_bias: false }
     }
     pub fn horn_auto() -> Self {
         GenCfg { coinductive: true, auto: true, negative_impls: true, fields: true, enums: true, ..Self::horn() }
+    }
+    /// F-auto: mostly auto / coinductive traits over recursive data types
+    pub fn auto_heavy() -> Self {
+        GenCfg { co_bias: true, extra_params: false, supers: false, fact_bias: 25, ..Self::horn_auto() }
+    }
+    /// F-env: rich supertrait hierarchies, where-clauses on type declarations, few impls
+    pub fn env() -> Self {
+        GenCfg { struct_wcs: true, max_impls: 5, fact_bias: 50, growth: false, ..Self::horn() }
     }
 }
 
@@ -107,10 +117,18 @@ pub fn gen_program(t: &mut Tape, cfg: &GenCfg) -> Program {
     let mut p = gen_ctors(t, cfg);
     let nt = 2 + t.choose(cfg.max_traits - 1);
     for name in TRAITS.iter().take(nt) {
-        let kind = match t.choose(10) {
-            6..=7 if cfg.coinductive => TraitKind::Coinductive,
-            8..=9 if cfg.auto => TraitKind::Auto,
-            _ => TraitKind::Inductive,
+        let kind = if cfg.co_bias {
+            match t.choose(10) {
+                0..=1 => TraitKind::Inductive,
+                2..=4 => TraitKind::Coinductive,
+                _ => TraitKind::Auto,
+            }
+        } else {
+            match t.choose(10) {
+                6..=7 if cfg.coinductive => TraitKind::Coinductive,
+                8..=9 if cfg.auto => TraitKind::Auto,
+                _ => TraitKind::Inductive,
+            }
         };
         let extra = if cfg.extra_params && kind != TraitKind::Auto && t.chance(25) { 1 } else { 0 };
         p.traits.push(new_trait(name, extra, kind));
@@ -136,6 +154,28 @@ pub fn gen_program(t: &mut Tape, cfg: &GenCfg) -> Program {
                 supers.push(TRef { tr: j, args });
             }
             p.traits[i].supers = supers;
+        }
+    }
+    if cfg.struct_wcs {
+        for c in 0..p.ctors.len() {
+            if p.ctors[c].arity == 0 || !t.chance(60) {
+                continue;
+            }
+            let params: Vec<Ty> = (0..p.ctors[c].arity).map(Ty::Param).collect();
+            let nw = 1 + t.choose(2);
+            let mut wcs = vec![];
+            for _ in 0..nw {
+                let j = t.choose(nt);
+                if p.traits[j].kind == TraitKind::Auto {
+                    continue;
+                }
+                let mut args = vec![params[t.choose(params.len())].clone()];
+                for _ in 0..p.traits[j].extra {
+                    args.push(gen_ty(t, &p, &params, 1));
+                }
+                wcs.push(TRef { tr: j, args });
+            }
+            p.ctors[c].wcs = wcs;
         }
     }
     let ni = 2 + t.choose(cfg.max_impls - 1);
